@@ -19,6 +19,13 @@ class BlockList:
         self.update_neighbours(block)
 
     def grade_blocks(self) -> None:
+        # start afresh everywhere before anything is graded anew
+        # (mesh written twice, vertices moved in between): a block
+        # must not copy what its neighbour still holds from the previous time
+        for block in self.blocks:
+            for axis in block.axes:
+                axis.wires.reset()
+
         for block in self.blocks:
             block.grade()
 
